@@ -607,4 +607,52 @@ def runM (ω : Nat → Val) (P : Prog) : Nat → MState → MState
 
 def MState.init (σ : SState) : MState := ⟨0, σ, 0, 0, 0, false, false⟩
 
+/-! ### named labels (parse.c `labels` / `gotos`, `resolve_goto_labels`) -/
+
+/-- (source name, unique label) of every labelled statement, in source order -/
+def labelPairs : Stmt → List (Nat × Nat)
+  | .seq a b => labelPairs a ++ labelPairs b
+  | .block s => labelPairs s
+  | .ifte _ t e => labelPairs t ++ labelPairs e
+  | .for_ _ _ _ _ _ body => labelPairs body
+  | .doWhile _ _ body _ => labelPairs body
+  | .switch_ _ _ _ _ _ _ body => labelPairs body
+  | .case_ _ _ _ s => labelPairs s
+  | .default_ _ s => labelPairs s
+  | .label l u s => (l, u) :: labelPairs s
+  | _ => []
+
+/-- every `goto l` / `goto *&&l` is resolved, to a unique label `t` with `R l t`; `V` holds if there is a
+    computed goto (it will be: code addresses fit a 64-bit register) -/
+def GotoR (R : Nat → Nat → Prop) (V : Prop) : Stmt → Prop
+  | .seq a b => GotoR R V a ∧ GotoR R V b
+  | .block s => GotoR R V s
+  | .ifte _ t e => GotoR R V t ∧ GotoR R V e
+  | .for_ _ _ _ _ _ body => GotoR R V body
+  | .doWhile _ _ body _ => GotoR R V body
+  | .switch_ _ _ _ _ _ _ body => GotoR R V body
+  | .case_ _ _ _ s => GotoR R V s
+  | .default_ _ s => GotoR R V s
+  | .label _ _ s => GotoR R V s
+  | .goto_ (.user l) t => R l t
+  | .gotoVal l t => R l t ∧ V
+  | .gotoN _ => False
+  | .gotoValN _ => False
+  | _ => True
+
+/-- the label names `goto l` / `goto *&&l` statements of a source statement use -/
+def jumpNames : SStmt → List Nat
+  | .seq a b => jumpNames a ++ jumpNames b
+  | .block s => jumpNames s
+  | .ifte _ t e => jumpNames t ++ jumpNames e
+  | .for_ _ _ _ b => jumpNames b
+  | .doWhile b _ => jumpNames b
+  | .switch_ _ _ _ b => jumpNames b
+  | .case_ _ _ s => jumpNames s
+  | .default_ s => jumpNames s
+  | .label _ s => jumpNames s
+  | .goto_ l => [l]
+  | .gotoVal l => [l]
+  | _ => []
+
 end ChibiVerif.Ctl
